@@ -1,6 +1,7 @@
 package sign
 
 import (
+	"errors"
 	"fmt"
 
 	"github.com/taurusgroup/multi-party-sig/internal/round"
@@ -18,6 +19,12 @@ import (
 // The Receiver plays the role of "Bob".
 func StartSignReceiver(config *keygen.ConfigReceiver, selfID, otherID party.ID, hash []byte, pl *pool.Pool) protocol.StartFunc {
 	return func(sessionID []byte) (round.Session, error) {
+		if config == nil || config.Public == nil || config.SecretShare == nil || config.Setup == nil {
+			return nil, errors.New("sign.StartSign: config is nil or incomplete")
+		}
+		if len(hash) == 0 {
+			return nil, errors.New("sign.StartSign: message hash is empty")
+		}
 		info := round.Info{
 			ProtocolID:       "doerner/keygen",
 			FinalRoundNumber: 2,
@@ -44,6 +51,12 @@ func StartSignReceiver(config *keygen.ConfigReceiver, selfID, otherID party.ID, 
 // The Sender plays the role of "Alice".
 func StartSignSender(config *keygen.ConfigSender, selfID, otherID party.ID, hash []byte, pl *pool.Pool) protocol.StartFunc {
 	return func(sessionID []byte) (round.Session, error) {
+		if config == nil || config.Public == nil || config.SecretShare == nil || config.Setup == nil {
+			return nil, errors.New("sign.StartSign: config is nil or incomplete")
+		}
+		if len(hash) == 0 {
+			return nil, errors.New("sign.StartSign: message hash is empty")
+		}
 		info := round.Info{
 			ProtocolID:       "doerner/keygen",
 			FinalRoundNumber: 2,
